@@ -119,6 +119,8 @@ pub struct Shared {
     pub crashed: Cell<Option<CrashAt>>,
     /// fn/boxed cutoffs answer with equality instead of an uninterpreted predicate
     pub cut_eq: Cell<bool>,
+    pub guards: RefCell<Vec<(GuardOwner, Rc<Cell<u32>>)>>,
+    pub smuggle: Cell<bool>,
     pub performed: RefCell<Vec<Performed>>,
 }
 
@@ -133,6 +135,11 @@ pub struct UpdLog {
 }
 
 impl Shared {
+    pub fn new_guard(&self, owner: GuardOwner) -> Guard {
+        let c = Rc::new(Cell::new(0));
+        self.guards.borrow_mut().push((owner, c.clone()));
+        Guard(c)
+    }
     pub fn maybe_crash(&self, at: CrashAt) {
         let fire = {
             let mut c = self.crash.borrow_mut();
@@ -189,6 +196,20 @@ impl Shared {
             NodeKey::Cutoff(i) => CrashAt::Fn(NodeKeyKind::Cutoff, i),
         };
         self.maybe_crash(at);
+    }
+}
+
+#[derive(Clone, Copy, Debug, PartialEq, Eq)]
+pub enum GuardOwner {
+    Main(usize),
+    BindFn(usize),
+    Rhs(usize, u32),
+}
+/// A value captured by a closure handed to the engine; counts how often it is dropped.
+pub struct Guard(pub Rc<Cell<u32>>);
+impl Drop for Guard {
+    fn drop(&mut self) {
+        self.0.set(self.0.get() + 1);
     }
 }
 
@@ -345,6 +366,8 @@ pub enum Action {
     ArmHandlerWrite(usize, usize, WKind),
     DropVar(usize),
     ArmPanic(CrashAt, u32),
+    DropState,
+    DropVarHandle(usize),
     Stabilise,
     Write(usize),
     WriteSame(usize),
@@ -391,6 +414,8 @@ pub struct Ops {
     pub arm_vars: Vec<usize>,
     /// user functions at which a panic may be injected
     pub crash_points: Vec<(CrashAt, u32)>,
+    pub drop_state: bool,
+    pub drop_var_handle: bool,
 }
 
 #[derive(Clone, Default)]
@@ -407,6 +432,7 @@ pub struct Monitors {
     pub c06: bool,
     pub c08: bool,
     pub c13: bool,
+    pub c12: bool,
 }
 
 #[derive(Clone)]
@@ -434,7 +460,7 @@ pub struct WorldCfg {
 
 pub struct World {
     pub cfg: WorldCfg,
-    pub state: IncrState,
+    pub state: Option<IncrState>,
     pub sh: Rc<Shared>,
     pub nodes: Vec<NodeEntry>,
     pub vars: BTreeMap<usize, (Var<SV>, SV)>,
@@ -454,6 +480,8 @@ pub struct World {
     pub dropped_model: BTreeMap<usize, SV>,
     pub crash_armed_once: bool,
     pub poisoned: bool,
+    /// strong-count probes of every node built from a spec
+    pub weaks: Vec<Box<dyn Fn() -> usize>>,
 }
 
 thread_local! {
@@ -482,7 +510,7 @@ fn rhs_fn(bind: usize, then: bool, pos: u8) -> u16 {
 
 impl World {
     pub fn new(cfg: &WorldCfg) -> World {
-        let state = IncrState::new();
+        let state = Some(IncrState::new());
         let sh = Rc::new(Shared {
             log: RefCell::new(vec![]),
             round: Cell::new(0),
@@ -497,6 +525,8 @@ impl World {
             crash: RefCell::new(None),
             crashed: Cell::new(None),
             cut_eq: Cell::new(false),
+            guards: RefCell::new(vec![]),
+            smuggle: Cell::new(cfg.ops.observe_smuggled),
             performed: RefCell::new(vec![]),
         });
         let mut w = World {
@@ -520,6 +550,7 @@ impl World {
             dropped_model: BTreeMap::new(),
             crash_armed_once: false,
             poisoned: false,
+            weaks: vec![],
         };
         for s in cfg.specs.clone() {
             w.build(s);
@@ -567,17 +598,18 @@ impl World {
         let f = i as u16;
         let sh = self.sh.clone();
         let key = NodeKey::Main(i);
+        let g = self.sh.new_guard(if matches!(spec, Spec::Bind { .. }) { GuardOwner::BindFn(i) } else { GuardOwner::Main(i) });
         let handle = match &spec {
             Spec::Var => {
                 let v0 = fresh();
-                let v = self.state.var(v0.clone());
+                let v = self.state.as_ref().unwrap().var(v0.clone());
                 let h = v.watch();
                 self.vars.insert(i, (v, v0));
                 Handle::S(h)
             }
             Spec::PVar => {
                 let v0 = (fresh(), fresh());
-                let v = self.state.var(v0.clone());
+                let v = self.state.as_ref().unwrap().var(v0.clone());
                 let h = v.watch();
                 self.pvars.insert(i, (v, v0));
                 Handle::P(h)
@@ -585,11 +617,12 @@ impl World {
             Spec::Const => {
                 let c = fresh();
                 self.consts.insert(i, c.clone());
-                Handle::S(self.state.constant(c))
+                Handle::S(self.state.as_ref().unwrap().constant(c))
             }
             Spec::Map(a) => {
                 let a = self.s_handle(*a).unwrap();
                 Handle::S(a.map(move |x| {
+                    let _ = &g;
                     sh.invoke(key, vec![x.clone()]);
                     app(f, &[x.clone()])
                 }))
@@ -597,6 +630,7 @@ impl World {
             Spec::Map2(a, b) => {
                 let (a, b) = (self.s_handle(*a).unwrap(), self.s_handle(*b).unwrap());
                 Handle::S(a.map2(&b, move |x, y| {
+                    let _ = &g;
                     sh.invoke(key, vec![x.clone(), y.clone()]);
                     app(f, &[x.clone(), y.clone()])
                 }))
@@ -604,6 +638,7 @@ impl World {
             Spec::Map3(a, b, c) => {
                 let (a, b, c) = (self.s_handle(*a).unwrap(), self.s_handle(*b).unwrap(), self.s_handle(*c).unwrap());
                 Handle::S(a.map3(&b, &c, move |x, y, z| {
+                    let _ = &g;
                     sh.invoke(key, vec![x.clone(), y.clone(), z.clone()]);
                     app(f, &[x.clone(), y.clone(), z.clone()])
                 }))
@@ -611,6 +646,7 @@ impl World {
             Spec::MapWithOld(a) => {
                 let a = self.s_handle(*a).unwrap();
                 Handle::S(a.map_with_old(move |old: Option<SV>, x| {
+                    let _ = &g;
                     sh.invoke(key, vec![x.clone()]);
                     let new = app(f, &[x.clone()]);
                     // "did change" reported truthfully: a pure function that ignores the old value
@@ -623,7 +659,8 @@ impl World {
             }
             Spec::Fold(v) => {
                 let hs: Vec<Incr<SV>> = v.iter().map(|j| self.s_handle(*j).unwrap()).collect();
-                Handle::S(self.state.fold(hs, SV::lit(0), move |acc, x| {
+                Handle::S(self.state.as_ref().unwrap().fold(hs, SV::lit(0), move |acc, x| {
+                    let _ = &g;
                     sh.invoke(key, vec![acc.clone(), x.clone()]);
                     app(f, &[acc, x.clone()])
                 }))
@@ -631,6 +668,7 @@ impl World {
             Spec::Zip(a, b) => {
                 let (a, b) = (self.s_handle(*a).unwrap(), self.s_handle(*b).unwrap());
                 Handle::S(a.zip(&b).map(move |p| {
+                    let _ = &g;
                     sh.invoke(key, vec![p.0.clone(), p.1.clone()]);
                     app(f, &[p.0.clone(), p.1.clone()])
                 }))
@@ -646,6 +684,7 @@ impl World {
             Spec::PMap(p) => {
                 let p = self.p_handle(*p).unwrap();
                 Handle::S(p.map(move |p| {
+                    let _ = &g;
                     sh.invoke(key, vec![p.0.clone(), p.1.clone()]);
                     app(f, &[p.0.clone(), p.1.clone()])
                 }))
@@ -659,8 +698,9 @@ impl World {
                 let then_h = self.rhs_handle(then);
                 let els_h = self.rhs_handle(els);
                 let (then, els) = (then.clone(), els.clone());
-                let ws: WeakState = self.state.weak();
+                let ws: WeakState = self.state.as_ref().unwrap().weak();
                 Handle::S(lhs_h.bind(move |x: &SV| {
+                    let _ = &g;
                     sh.invoke(NodeKey::BindFn(i), vec![x.clone()]);
                     let take_then = decide_pred(i as u16, &[x.clone()]);
                     let gen = {
@@ -676,6 +716,20 @@ impl World {
                 }))
             }
         };
+        if matches!(spec, Spec::Var | Spec::PVar | Spec::Const | Spec::DependOn(..) | Spec::Fst(_) | Spec::RefId(_)) {
+            // no harness closure was handed to the engine for this node
+            self.sh.guards.borrow_mut().pop();
+        }
+        match &handle {
+            Handle::S(h) => {
+                let w = h.weak();
+                self.weaks.push(Box::new(move || w.strong_count()));
+            }
+            Handle::P(h) => {
+                let w = h.weak();
+                self.weaks.push(Box::new(move || w.strong_count()));
+            }
+        }
         self.nodes.push(NodeEntry { spec, handle: Some(handle), cutoff: CutKind::Default });
         i
     }
@@ -764,12 +818,101 @@ impl World {
             let (g2, m2) = (got.clone(), m.clone());
             require("C08/get-after-stabilise", F::eq(&got, m), move || format!("var {i}: get() after stabilise #{round} returned {g2:?}, writes in program order give {m2:?}"));
         }
-        let stable = self.state.is_stable();
+        let stable = self.state.as_ref().unwrap().is_stable();
         if touched_needed && stable {
             violation("C08/stable-after-deferred-write", format!("an observed variable was written inside stabilise #{round} but is_stable() is true"));
         }
         if performed.is_empty() && !stable {
             violation("C08/unstable-without-pending-work", format!("is_stable() is false right after stabilise #{round} although nothing was written inside it"));
+        }
+    }
+
+    pub fn drop_all_handles(&mut self) {
+        for s in self.obs.borrow_mut().iter_mut() {
+            s.handles.clear();
+        }
+        for n in self.nodes.iter_mut() {
+            n.handle = None;
+        }
+        self.vars.clear();
+        self.pvars.clear();
+        self.sh.smuggled.borrow_mut().clear();
+        self.sh.armed.borrow_mut().clear();
+        // one stabilise lets the engine release what it defers (dead vars, unlinked observers)
+        if let Some(st) = self.state.as_ref() {
+            st.stabilise();
+        }
+        self.state = None;
+    }
+
+    /// Nodes that some live handle still (transitively) refers to.
+    fn retained(&self) -> BTreeSet<usize> {
+        let mut roots: Vec<usize> = vec![];
+        for (i, n) in self.nodes.iter().enumerate() {
+            if n.handle.is_some() {
+                roots.push(i);
+            }
+        }
+        for (i, _) in &self.vars {
+            roots.push(*i);
+        }
+        for (i, _) in &self.pvars {
+            roots.push(*i);
+        }
+        for s in self.obs.borrow().iter() {
+            if !s.handles.is_empty() {
+                roots.push(s.node);
+            }
+        }
+        let mut seen = BTreeSet::new();
+        while let Some(i) = roots.pop() {
+            if !seen.insert(i) {
+                continue;
+            }
+            roots.extend(self.nodes[i].spec.inputs());
+            if let Spec::Bind { then, els, .. } = &self.nodes[i].spec {
+                for r in [then, els] {
+                    match r {
+                        Rhs::Node(j) | Rhs::FreshMap(j) | Rhs::FreshMapCap(j) | Rhs::FreshChain(j) | Rhs::FreshGarbage(j) => roots.push(*j),
+                        Rhs::FreshConst => {}
+                    }
+                }
+            }
+        }
+        seen
+    }
+
+    /// C12: everything no live handle refers to has been released (called after a stabilise,
+    /// and once more when every handle and the state are gone).
+    pub fn leak_check(&self, when: &str) {
+        let retained = self.retained();
+        for (i, probe) in self.weaks.iter().enumerate() {
+            if !retained.contains(&i) && probe() != 0 {
+                let kind = self.nodes[i].spec.kind_name();
+                violation(&format!("C12/node-not-released/{kind}"), format!("{when}: node {i} ({kind}) has no live handle, observer or dependant left but strong_count = {}", probe()));
+            }
+        }
+        let gens = self.sh.gens.borrow().clone();
+        for (owner, count) in self.sh.guards.borrow().iter() {
+            let (released, what) = match owner {
+                GuardOwner::Main(i) | GuardOwner::BindFn(i) => (!retained.contains(i), format!("closure of node {i}")),
+                GuardOwner::Rhs(b, g) => (!retained.contains(b) || gens.get(b).copied().unwrap_or(0) > *g, format!("closure of a node built by run {g} of bind {b}")),
+            };
+            let c = count.get();
+            if c > 1 {
+                violation("C12/captured-value-dropped-twice", format!("{when}: value captured by the {what} was dropped {c} times"));
+            }
+            if released && c == 0 && !self.cfg.ops.observe_smuggled {
+                let role = match owner {
+                    GuardOwner::Main(i) => self.nodes[*i].spec.kind_name(),
+                    GuardOwner::BindFn(_) => "BindFn",
+                    GuardOwner::Rhs(..) => "BindRhsNode",
+                };
+                violation(&format!("C12/captured-value-not-released/{role}"), format!("{when}: the {what} is unreachable but the value it captured was never dropped"));
+            }
+            if !released && c != 0 {
+                violation("C12/captured-value-dropped-early", format!("{when}: the {what} is still reachable but its captured value was dropped"));
+            }
         }
     }
 
@@ -814,7 +957,7 @@ impl World {
         }
         // a further stabilise must refuse to run
         let before = self.sh.log.borrow().len();
-        let st = self.state.clone();
+        let st = self.state.clone().unwrap();
         let again = catch(move || st.stabilise());
         let ran = self.sh.log.borrow().len() - before;
         match again {
@@ -1105,6 +1248,31 @@ impl World {
         let o = &self.cfg.ops;
         let obs = self.obs.borrow();
         let mut v = vec![];
+        if self.state.is_none() {
+            // only handles can still be dropped
+            for (k, s) in obs.iter().enumerate() {
+                if !s.handles.is_empty() {
+                    v.push(Action::DropObs(k));
+                }
+            }
+            for (i, n) in self.nodes.iter().enumerate() {
+                if n.handle.is_some() {
+                    v.push(Action::DropHandle(i));
+                }
+            }
+            for (i, _) in &self.vars {
+                v.push(Action::DropVarHandle(*i));
+            }
+            return v;
+        }
+        if o.drop_state {
+            v.push(Action::DropState);
+        }
+        if o.drop_var_handle {
+            for (i, _) in &self.vars {
+                v.push(Action::DropVarHandle(*i));
+            }
+        }
         if self.dirty {
             v.push(Action::Stabilise);
         }
@@ -1238,7 +1406,7 @@ impl World {
         }
         if o.drop_handle {
             for (i, n) in self.nodes.iter().enumerate() {
-                if n.handle.is_some() && !matches!(n.spec, Spec::Var | Spec::PVar) {
+                if n.handle.is_some() && (self.cfg.mon.c12 || !matches!(n.spec, Spec::Var | Spec::PVar)) {
                     v.push(Action::DropHandle(i));
                 }
             }
@@ -1297,6 +1465,18 @@ impl World {
             Action::ArmPanic(at, skip) => {
                 *self.sh.crash.borrow_mut() = Some((*at, *skip));
                 self.crash_armed_once = true;
+                self.dirty = true;
+            }
+            Action::DropState => {
+                let st = self.state.take();
+                drop(st);
+                cover("state-dropped-before-handles");
+            }
+            Action::DropVarHandle(i) => {
+                let (v, m) = self.vars.remove(i).unwrap();
+                drop(v);
+                self.dropped_model.insert(*i, m);
+                self.var_dropped.insert(*i);
                 self.dirty = true;
             }
             Action::DropVar(i) => {
@@ -1440,7 +1620,7 @@ impl World {
                     let obs = self.obs.borrow();
                     (obs[*k].subs[*j].token, obs[*k].st)
                 };
-                self.state.unsubscribe(tok);
+                self.state.as_ref().unwrap().unsubscribe(tok);
                 if st == OSt::Dead {
                     cover("state-unsubscribe-after-observer-gone");
                     self.obs.borrow_mut()[*k].state_unsub_after_gone = true;
@@ -1471,7 +1651,7 @@ impl World {
         if !self.cfg.mon.c11 {
             return;
         }
-        let lines = self.state.verif_audit(after_stabilise);
+        let lines = self.state.as_ref().unwrap().verif_audit(after_stabilise);
         if let Some(first) = lines.first() {
             let cat: String = first.chars().map(|c| if c.is_ascii_digit() { '#' } else { c }).collect();
             let mut cat2 = String::new();
@@ -1516,10 +1696,10 @@ impl World {
         let roots = self.live_roots();
         let lb = self.sh.last_branch.borrow().clone();
         let cone_start = self.cone(&roots, &|b| lb.get(&b).copied());
-        let recomputed_before = self.state.stats().recomputed;
+        let recomputed_before = self.state.as_ref().unwrap().stats().recomputed;
         self.sh.in_stabilise.set(true);
         if self.cfg.mon.c13 {
-            let st = self.state.clone();
+            let st = self.state.clone().unwrap();
             let r = catch(move || st.stabilise());
             self.sh.in_stabilise.set(false);
             if let Err(msg) = r {
@@ -1530,7 +1710,7 @@ impl World {
                 return;
             }
         } else {
-            self.state.stabilise();
+            self.state.as_ref().unwrap().stabilise();
         }
         self.sh.in_stabilise.set(false);
         self.dirty = false;
@@ -1733,8 +1913,8 @@ impl World {
             let cone_end = self.cone(&roots_end, &|b| lb.get(&b).copied());
             if roots.is_empty() && roots_end.is_empty() {
                 cover("stabilise-with-no-live-observer");
-                if !log.is_empty() || self.state.stats().recomputed != recomputed_before {
-                    violation("C05/work-without-observer", format!("stabilise #{round} with no live observer invoked {} functions, recomputed {}", log.len(), self.state.stats().recomputed - recomputed_before));
+                if !log.is_empty() || self.state.as_ref().unwrap().stats().recomputed != recomputed_before {
+                    violation("C05/work-without-observer", format!("stabilise #{round} with no live observer invoked {} functions, recomputed {}", log.len(), self.state.as_ref().unwrap().stats().recomputed - recomputed_before));
                 }
             }
             for inv in &log {
@@ -1754,6 +1934,10 @@ impl World {
         if self.cfg.mon.c08 {
             self.c08_after_stabilise(round);
         }
+        if self.cfg.mon.c12 {
+            cover("leak-check-after-stabilise");
+            self.leak_check(&format!("after stabilise #{round}"));
+        }
         self.audit(true);
     }
 
@@ -1768,6 +1952,9 @@ impl World {
 
     /// Reads issued between actions (C07), result kinds (C10), audit (C11).
     fn after_op(&mut self) {
+        if self.state.is_none() {
+            return;
+        }
         if self.cfg.mon.c07 || self.cfg.mon.c10 {
             let obs = self.obs.borrow();
             for (k, s) in obs.iter().enumerate() {
@@ -1807,7 +1994,7 @@ impl World {
     }
 
     pub fn finish(&mut self) {
-        if self.poisoned {
+        if self.poisoned || self.state.is_none() {
             return;
         }
         if self.dirty {
@@ -1817,7 +2004,7 @@ impl World {
         if self.cfg.mon.c08 {
             // `while !is_stable() { stabilise() }` must end, with values consistent with the variables
             let mut n = 0;
-            while !self.state.is_stable() {
+            while !self.state.as_ref().unwrap().is_stable() {
                 n += 1;
                 if n > 4 {
                     violation("C08/fixed-point-loop-does-not-end", "is_stable() still false after 4 further stabilises with no write armed".into());
@@ -1833,15 +2020,21 @@ impl World {
 fn make_rhs(sh: &Rc<Shared>, ws: &WeakState, bind: usize, branch: bool, gen: u32, r: &Rhs, h: Option<&Incr<SV>>, lhs: &SV) -> Incr<SV> {
     let g0 = rhs_fn(bind, branch, 0);
     let g1 = rhs_fn(bind, branch, 1);
+    let g0_guard = sh.new_guard(GuardOwner::Rhs(bind, gen));
+    if matches!(r, Rhs::Node(_) | Rhs::FreshConst) {
+        // no closure is built for this right-hand side
+        sh.guards.borrow_mut().pop();
+    }
     match r {
         Rhs::Node(_) => h.unwrap().clone(),
         Rhs::FreshMap(_) => {
             let sh2 = sh.clone();
             let n = h.unwrap().map(move |y| {
+                let _ = &g0_guard;
                 sh2.invoke(NodeKey::Rhs(bind, branch, gen, 0), vec![y.clone()]);
                 app(g0, &[y.clone()])
             });
-            sh.smuggled.borrow_mut().push((bind, branch, gen, 0, n.clone()));
+            if sh.smuggle.get() { sh.smuggled.borrow_mut().push((bind, branch, gen, 0, n.clone())); }
             n
         }
         Rhs::FreshGarbage(_) => {
@@ -1850,20 +2043,22 @@ fn make_rhs(sh: &Rc<Shared>, ws: &WeakState, bind: usize, branch: bool, gen: u32
             drop(tmp);
             cover("node-created-and-dropped-inside-bind-closure");
             let n = h.unwrap().map(move |y| {
+                let _ = &g0_guard;
                 sh2.invoke(NodeKey::Rhs(bind, branch, gen, 0), vec![y.clone()]);
                 app(g0, &[y.clone()])
             });
-            sh.smuggled.borrow_mut().push((bind, branch, gen, 0, n.clone()));
+            if sh.smuggle.get() { sh.smuggled.borrow_mut().push((bind, branch, gen, 0, n.clone())); }
             n
         }
         Rhs::FreshMapCap(_) => {
             let sh2 = sh.clone();
             let cap = lhs.clone();
             let n = h.unwrap().map(move |y| {
+                let _ = &g0_guard;
                 sh2.invoke(NodeKey::Rhs(bind, branch, gen, 0), vec![y.clone()]);
                 app(g0, &[cap.clone(), y.clone()])
             });
-            sh.smuggled.borrow_mut().push((bind, branch, gen, 0, n.clone()));
+            if sh.smuggle.get() { sh.smuggled.borrow_mut().push((bind, branch, gen, 0, n.clone())); }
             n
         }
         Rhs::FreshConst => ws.constant(app(g0, &[lhs.clone()])),
@@ -1871,6 +2066,7 @@ fn make_rhs(sh: &Rc<Shared>, ws: &WeakState, bind: usize, branch: bool, gen: u32
             let sh2 = sh.clone();
             let sh3 = sh.clone();
             let n0 = h.unwrap().map(move |y| {
+                let _ = &g0_guard;
                 sh2.invoke(NodeKey::Rhs(bind, branch, gen, 0), vec![y.clone()]);
                 app(g0, &[y.clone()])
             });
@@ -1878,8 +2074,8 @@ fn make_rhs(sh: &Rc<Shared>, ws: &WeakState, bind: usize, branch: bool, gen: u32
                 sh3.invoke(NodeKey::Rhs(bind, branch, gen, 1), vec![y.clone()]);
                 app(g1, &[y.clone()])
             });
-            sh.smuggled.borrow_mut().push((bind, branch, gen, 0, n0));
-            sh.smuggled.borrow_mut().push((bind, branch, gen, 1, n1.clone()));
+            if sh.smuggle.get() { sh.smuggled.borrow_mut().push((bind, branch, gen, 0, n0)); }
+            if sh.smuggle.get() { sh.smuggled.borrow_mut().push((bind, branch, gen, 1, n1.clone())); }
             n1
         }
     }
@@ -1904,7 +2100,14 @@ pub fn run_world(cfg: &WorldCfg) {
     });
     match r {
         Ok(()) => {
-            let r2 = catch(move || drop(ManuallyDrop::into_inner(w)));
+            let r2 = catch(move || {
+                let mut w = ManuallyDrop::into_inner(w);
+                if w.cfg.mon.c12 {
+                    w.drop_all_handles();
+                    w.leak_check("after every handle and the state were dropped");
+                }
+                drop(w)
+            });
             if let Err(msg) = r2 {
                 if cfg.mon.c13 {
                     violation("C13/panic-while-dropping-handles-and-state", msg.clone());
